@@ -59,7 +59,7 @@ RUN_HEAVY = os.environ.get("VERIF_C09_HEAVY") == "1"
 
 def build(tier):
     units = []; T = []
-    for (tt, pol) in ([("s8", "rat")] if tier == "quick" else [("s8", "nat"), ("s8", "rat")]):
+    for (tt, pol) in [("s8", "rat")]:      # (both tiers: the Rational info policy exercises open and closed bounds; each extra combination costs about an hour)
         u = unit_for(tt, pol); units.append(u)
         d = 1
         def kw(nx, ny, share=False):
